@@ -236,7 +236,7 @@ def real_body_lines(md):
 
 def check_body_text(ctx, drv, md, model, impl, strategy, width, base):
     """The TEXT of the body (round 10, B5): the model's lines (ReportText.renderBody, Lean) against the real lines,
-    LINE BY LINE; the real lines read by the proved reader (ReportText.parseBody, Lean) against the structured
+    LINE BY LINE; the real lines read by the proved strict reader (ReportText.parseBodyStrict, Lean) against the structured
     report of the model (= the filter's result) and against what the Python Markdown parser of this harness read;
     the hygiene hypotheses of C17_text_roundtrip (okBody, costsOK) evaluated by Lean on the structured report."""
     stream = "body text (line by line + parseBody of the real lines)"
@@ -360,13 +360,13 @@ def run(ctx):
         "against the spans, on widths 1-40 × a fixed family and on random lists of 0-40 spans of magnitudes up to 10^16 (width 30 most frequent); "
         "body text (B5): for every generated report, the lines of the body written by the Lean model ReportText.renderBody (heading lines with counts, "
         "title lines with path and cost, table header, row lines, rule; cost texts by the model of float repr) against the real lines LINE BY LINE "
-        "(source listings removed), the real lines read by the PROVED reader ReportText.parseBody (Lean) against the structured report of the model and "
+        "(source listings removed), the real lines read by the PROVED strict reader ReportText.parseBodyStrict (Lean: every line classified, the grammar of the body checked) against the structured report of the model and "
         "against what the Python Markdown parser of this harness read, and the hypotheses okBody / costsOK of C17_text_roundtrip evaluated by Lean on it; "
         "plus cost_bucket on a grid of 12k dyadic rationals. Non-trivial = at least one section and some command or hidden program (reports), a wrapped cell (cells)."
     )
     ctx.cov["trusted_base"] = TRUST + [
         "the Markdown parser of this harness for the summary lines; for headings, titles and table rows it is cross-checked on every report by the "
-        "proved reader ReportText.parseBody run on the same lines (slugs, the table of contents and the line-number gutter are outside the model; "
+        "proved reader ReportText.parseBodyStrict run on the same lines (slugs, the table of contents and the line-number gutter are outside the model; "
         "the source listing is removed by the harness before the comparison)",
         "the model of float repr (ReportText.showFloat: exact decimal expansion of a dyadic cost, CPython format_float_short rule for the exponent) "
         "and the int/float distinction of row costs (rowCostText) are tied to the real text by the line-by-line stream only; the theorems take the "
@@ -379,7 +379,7 @@ def run(ctx):
     ctx.cov["proved"] = ["C17_membership", "C17_bucket", "C17_bucket_contains", "C17_order", "C17_rows", "C17_total", "C17_summary",
                          "C17_summary_fresh", "C17_stdout", "C17_order_across", "C17_order_across_assess", "C17_cell_roundtrip", "C17_cell_imported",
                          "C17_cell_not_imported", "C17_cell_wrap_keeps_text", "C17_text_roundtrip", "C17_text_roundtrip_string", "C17_text_okBody_of_db", "C17_text_injective", "C17_text_membership",
-                         "C17_text_rows", "C17_text_bucket_count", "C17_text_reader_counts", "C17_text_reader_sound"]
+                         "C17_text_rows", "C17_text_bucket_count", "C17_text_reader_counts", "C17_text_reader_sound", "C17_text_roundtrip_strict", "C17_text_strict_le"]
     ctx.cov["exercised_only"] = ["rendering: slugs, table of contents, line-number gutter and source listing",
                                  "float repr of the costs (showFloat / rowCostText against the real text, line by line)",
                                  "C17_cell_unwrap_statement (lines joined by one space = the enumeration when no chunk exceeds the first line)"]
